@@ -2281,6 +2281,10 @@ def create_library_from_dictionary(node):
     """
 
     if "copyright" in node:
+        if not isinstance(node["copyright"], list):
+            raise RuntimeError(
+                "'copyright' must be a list of lines, not {!r}"
+                .format(node["copyright"]))
         clean_list(node["copyright"])
 
     clean_dictionary(node)
@@ -2288,7 +2292,18 @@ def create_library_from_dictionary(node):
 
     if "typemap" in node:
         # list of dictionaries
+        if not isinstance(node["typemap"], list):
+            raise RuntimeError(
+                "'typemap' must be a list of dictionaries, not {!r}"
+                .format(node["typemap"]))
         for subnode in node["typemap"]:
+            if not isinstance(subnode, dict) or \
+               not isinstance(subnode.get("type", None), str) or \
+               not isinstance(subnode.get("fields", None), dict):
+                raise RuntimeError(
+                    "Each entry in 'typemap' must be a dictionary with "
+                    "'type' (a string) and 'fields' (a dictionary), found {!r}"
+                    .format(subnode))
             # Update fields for a type. For example, set cpp_if
             key = subnode["type"]
             fields = subnode["fields"]
